@@ -240,12 +240,21 @@ func (r *Run) execute(vhost, vplugin string) {
 	if bs <= 0 {
 		bs = len(r.Cases)
 	}
-	for i := 0; i < len(r.Cases); i += bs {
-		j := i + bs
-		if j > len(r.Cases) {
-			j = len(r.Cases)
+	// cases whose kind starts with "solo:" mutate process globals and get a child of their own
+	var normal []spec.Case
+	for _, c := range r.Cases {
+		if strings.HasPrefix(c.Kind, "solo:") {
+			batches = append(batches, batch{n: len(batches), cases: []spec.Case{c}})
+		} else {
+			normal = append(normal, c)
 		}
-		batches = append(batches, batch{n: len(batches), cases: r.Cases[i:j]})
+	}
+	for i := 0; i < len(normal); i += bs {
+		j := i + bs
+		if j > len(normal) {
+			j = len(normal)
+		}
+		batches = append(batches, batch{n: len(batches), cases: normal[i:j]})
 	}
 	children := p.Children
 	if children <= 0 {
